@@ -98,22 +98,31 @@ def yearly_gains(t, col, upto=None):
     return out
 
 
-def later_global_split_near_earlier_split(h, D):
-    """Input feature used by a known-finding signature (name kept for the signature's sake): a split with an explicit
-    affiliate settles after D and is traded within a day of a split of the same security that settles on or before D.
-    (The summary writes the earlier split without an affiliate when only the default affiliate is involved; read
-    back next to the later, explicitly addressed one it is taken for a split for all affiliates and the load-stage
-    guard against duplicate split entries refuses the pair.)"""
+def _split_pairs(h, D, later_global):
     def day(x):
         return datetime.date.fromisoformat(x)
     sp = [r for r in h["rows"] if r["action"] == "Split"]
     for a in sp:
-        if a["sd"] <= D or (a.get("af") or "").strip() == "":
+        if a["sd"] <= D or (((a.get("af") or "").strip() == "") != later_global):
             continue
         for b in sp:
             if b["sd"] <= D and b["sec"] == a["sec"] and abs((day(a["td"]) - day(b["td"])).days) <= 1:
                 return True
     return False
+
+
+def later_global_split_near_earlier_split(h, D):
+    """Input feature used by a known-finding signature: a split for all affiliates (blank affiliate) settles after D and
+    is traded within a day of a split of the same security that settles on or before D. (The summary carries the
+    earlier split as one row per affiliate; next to the later all-affiliates split the load-stage guard against
+    duplicate split entries refuses the pair.)"""
+    return _split_pairs(h, D, True)
+
+
+def later_explicit_split_near_earlier_split(h, D):
+    """The sibling situation repaired by fix da97714 (the later split names an affiliate); reported separately so that
+    the known finding above does not cover it."""
+    return _split_pairs(h, D, False)
 
 
 def compare(full, summ_alone, replay, D, annual, h):
